@@ -1,4 +1,5 @@
 """C17 — blobs decrypt only under their dispute id; signatures bind signer and message."""
+import glob
 import hashlib
 import json
 import os
@@ -24,6 +25,22 @@ TRUSTED = [
     "modelled, validated by execution: rust-bitcoin 0.32.5 consensus (de)serialisation of Transaction (BtcCodec.v, incl. the 4,000,000-byte witness "
     "limits), chacha20poly1305 0.8 / RFC 8439, lightning 0.1.1 message_signing + zbase32",
 ]
+
+
+def build_extraction_prereqs(ctx):
+    """The driver is shared: every module named by a `Require:` line of extraction/parts/*.txt has to be compiled
+    before Extract.v.  Failures of other slices' models are not obligations of this property; if they make the
+    driver unbuildable, ocaml_build reports it."""
+    mods = []
+    for p in sorted(glob.glob(os.path.join(vlib.COQ, "extraction", "parts", "*.txt"))):
+        for l in open(p):
+            if l.startswith("Require:"):
+                mods += l[len("Require:"):].split()
+    vos = ["theories/" + m.replace(".", "/") + ".vo" for m in mods]
+    with vlib.BuildLock():
+        rc, out, dt = vlib.sh(["make", "-j16", "-k"] + vos, cwd=vlib.COQ, timeout=1500)
+    ctx.log(f"coq: models required by the shared driver ({len(vos)} modules) -> rc={rc} in {dt:.1f}s")
+    return rc == 0
 
 
 def split_cases(path, nparts, workdir):
@@ -90,6 +107,7 @@ def run(ctx):
     ctx.translate()
     res = ctx.coq_build(TARGETS)
     ctx.coq_hygiene(TARGETS, res)
+    build_extraction_prereqs(ctx)
     ok_h = ctx.cargo_build(["crypto"])
     ok_o = ctx.ocaml_build()
     cov = ctx.coverage
@@ -197,6 +215,8 @@ def replay(ctx, path):
     if obj.get("kind") != "crypto":
         print(json.dumps(obj, indent=1))
         return 1
+    ctx.coq_build(TARGETS)
+    build_extraction_prereqs(ctx)
     if not (ctx.cargo_build(["crypto"]) and ctx.ocaml_build()):
         return 2
     cf = os.path.join(ctx.work, "replay_case.txt")
